@@ -13,8 +13,13 @@ import (
 	"github.com/pkg/errors"
 )
 
+// sonicSorted encodes the keys of a Go map in sorted order, so that encoding the
+// same value twice gives the same bytes (sonic.Marshal follows the random map
+// iteration order).
+var sonicSorted = sonic.Config{SortMapKeys: true}.Froze()
+
 func marshalJSON(v interface{}) ([]byte, error) {
-	b, err := sonic.Marshal(v)
+	b, err := sonicSorted.Marshal(v)
 
 	return b, errors.WithStack(err)
 }
@@ -24,13 +29,16 @@ func unmarshalJSON(b []byte, v interface{}) error {
 }
 
 func marshalJSONIndent(i interface{}) ([]byte, error) {
-	b, err := sonicencoder.EncodeIndented(i, "", "  ", 0)
+	b, err := sonicencoder.EncodeIndented(i, "", "  ", sonicencoder.SortMapKeys)
 
 	return b, errors.WithStack(err)
 }
 
 func newJSONStreamEncoder(w io.Writer) StreamEncoder {
-	return sonicencoder.NewStreamEncoder(w)
+	enc := sonicencoder.NewStreamEncoder(w)
+	enc.SortKeys()
+
+	return enc
 }
 
 func newJSONStreamDecoder(r io.Reader) StreamDecoder {
